@@ -880,16 +880,16 @@ impl Check for C18 {
     fn assumptions(&self) -> Vec<String> {
         vec![
             "no live contender stalls longer than the 1 s corrupt-lock grace period between two of its own file-system steps (scheduler fairness bound of 40 steps); a longer stall is outside the protocol's own assumption".into(),
-            "advertised endpoints never answer (the only case in which cleanup may proceed, and what a stalled authority looks like)".into(),
+            "in the scheduled scenarios advertised endpoints never answer (the only case in which cleanup may proceed, and what a stalled authority looks like); an endpoint that answers is the separate real-time scenario, where a failing attempt is repeated once and reported only when it fails again (the client's ping has a real 250 ms timeout)".into(), "shutdown hand-over: real processes and real time; the verdict needs the old authority to be still running with a client stream still open 600 ms after the successor's lock record was seen - an authority that releases last exits within milliseconds of the release, one that releases first keeps draining open streams for up to 2 s".into(),
             "client contenders (1 in 4 scenarios) run the attach loop of rip-cli/src/local_authority.rs compiled into the simulator from the repository file; the authority process it spawns is a no-op (server contenders are separate actors)".into(),
         ]
     }
     fn components(&self) -> Value {
-        json!({"AuthorityLockGuard, stale/corrupt cleanup, server acquire_authority_lock_with_recovery": "real", "processes": "simulated (actor threads + getpid/kill seam + liveness table)", "clock": "simulated", "file system": "real tmpfs authority/ directory via libc seam", "endpoint ping": "real reqwest call on an unparseable URL (never reachable)", "rip-cli client attach/recovery loop": "real (source file included by path; the process it spawns is a no-op)"})
+        json!({"AuthorityLockGuard, stale/corrupt cleanup, server acquire_authority_lock_with_recovery": "real", "processes": "simulated (actor threads + getpid/kill seam + liveness table)", "clock": "simulated", "file system": "real tmpfs authority/ directory via libc seam", "endpoint ping": "real reqwest call on an unparseable URL (never reachable) in the scheduled scenarios; against a loop-back responder (harness stub) in the reachable-endpoint scenario", "rip-cli client attach/recovery loop": "real (source file included by path; the process it spawns is a no-op)", "shutdown hand-over scenario": "real processes: ripd::serve_default() (acquisition, listener, endpoint advertisement, SIGTERM handling, graceful drain, release) in `ripsim serve-real` children, real loop-back TCP clients holding event streams, real time; the supervisor restarting successors is harness code"})
     }
     fn extra_coverage(&self, c: &BTreeMap<String, u64>) -> Value {
         let init: BTreeMap<&String, &u64> = c.iter().filter(|(k, _)| k.starts_with("initial:")).collect();
         json!({"leftover_states": init, "acquired": c.get("acquired").copied().unwrap_or(0), "refused": c.get("refused").copied().unwrap_or(0), "scheduling_points": c.get("sched_points").copied().unwrap_or(0),
-               "fault_counts": {"crash_while_holding": c.get("fault:crash_while_holding").copied().unwrap_or(0), "clock_jump": c.get("fault:clock_jump").copied().unwrap_or(0), "preemptions": c.get("context_switches").copied().unwrap_or(0)}})
+               "fault_counts": {"crash_while_holding": c.get("fault:crash_while_holding").copied().unwrap_or(0), "clock_jump": c.get("fault:clock_jump").copied().unwrap_or(0), "preemptions": c.get("context_switches").copied().unwrap_or(0), "authority_told_to_shut_down_with_open_streams": c.get("fault:authority_told_to_shut_down_with_open_streams").copied().unwrap_or(0), "reachable_endpoint_invisible_pid_states": c.get("initial:ReachableInvisiblePid").copied().unwrap_or(0)}})
     }
 }
